@@ -129,13 +129,17 @@ def dispatcher(funcs_by_cls):
     return "\n".join(lines), table
 
 
-def build_driver(wd, classes, target, sanitize=False, tag=""):
+def build_driver(wd, classes, target, sanitize=False, tag="", decl_first=False):
     """emit + specialise the API with the tree's own generator, add dispatcher and main, compile; returns (exe, table, source text)"""
     xo = C.use_repo()
     from xobjects.context import sort_classes
     from xobjects.specialize_source import specialize_source
     ctx = xo.ContextCpu()
     ordered = sort_classes(list(classes))
+    if decl_first:
+        # another order of the generator's entry points: the cffi declarations of the classes (what ContextCpu.build_kernels asks
+        # for, with the configuration it uses) are produced BEFORE the API source is generated for the first time
+        "\n".join(cls._gen_c_decl({}) for cls in ordered)
     source, _ = ctx._build_sources(classes=ordered, extra_headers=[], specialize=False)
     spec = specialize_source(source, specialize_for=target)
     funcs_by_cls = [(c, api_functions(c)) for c in classes]
@@ -347,6 +351,115 @@ def validate(recs):
     return out, tot
 
 
+# ----------------------------------------------------------------------------- live kernels (the anchored call path)
+LIVE_TYPES = [
+    X.struct(X.sc("Int64"), X.arr(X.sc("Float64"), [-1]), X.arr(X.sc("Int32"), [-1, 3])),
+    X.arr(X.struct(X.sc("Int8"), X.sc("Float64")), [-1]),
+    X.struct(X.sc("Int16"), X.arr(X.arr(X.sc("Int64"), [-1]), [-1]), X.STR),
+    X.arr(X.sc("UInt16"), [2, -1], [1, 0]),
+    X.struct(X.ref(X.arr(X.sc("Float64"), [-1])), X.sc("Int8"), X.arr(X.sc("Float32"), [3])),
+    X.struct(X.sc("Float64"), X.struct(X.sc("Int8"), X.arr(X.sc("Int16"), [-1])), X.arr(X.sc("UInt8"), [-1])),
+]
+
+
+def live_records(run, pid):
+    """runs _live_child in a separate process (a write through a stale pointer may kill it: that is a violation, not a
+    machinery failure) and returns (records, info)"""
+    import subprocess, sys, types
+    out = os.path.join(run.tmp, "live.jsonl")
+    env = C.child_env() if hasattr(C, "child_env") else dict(os.environ)
+    p = subprocess.run([sys.executable, "-m", "vlib.capi", "--live", str(run.seed), run.tier, out], cwd=C.VERIF, env=env, capture_output=True, text=True, timeout=3000)
+    lines = [json.loads(ln) for ln in open(out)] if os.path.exists(out) else []
+    recs, info, last = [], [], None
+    for ln in lines:
+        if "announce" in ln:
+            last = ln["announce"]
+        elif "rec" in ln:
+            key = tuple(ln["key"])
+            recs.append(ln["rec"])
+            info.append((types.SimpleNamespace(handles={key: {"tx": ln["rec"]["t"]}}, index=ln["index"]), key, ln["desc"], ln["tag"]))
+        elif "count" in ln:
+            run.count(ln["count"])
+    if p.returncode < 0 and last is not None:
+        run.report(f"live:crash:signal{-p.returncode}:{last['k']}:{path_class(last['t'], last['path'])}",
+                   f"{last['name']} idx={last['idx']} called through ContextCpu kernels on an object of {X.key(last['t'])[:200]} ({last['tag']}): the process was killed by signal {-p.returncode} inside the call",
+                   dict(seed=run.seed, live=True, index=last["index"]))
+    elif p.returncode != 0 or not lines or "done" not in lines[-1]:
+        raise C.MachineryError(f"live kernel run failed rc={p.returncode}:\n" + (p.stdout + p.stderr)[-3000:])
+    return recs, info
+
+
+def _live_child(seed, tier, out):
+    """the same accessors through the library's own build-and-call path (ContextCpu.add_kernels + KernelCpu.__call__): each
+    generated function is called on objects of a buffer BEFORE and AFTER that buffer grew (and after further objects were
+    allocated in it), on both CPU buffer kinds.  Each phase is one record for XoCapiTrace: the buffer bytes as Python sees
+    them at that moment, the object address, the calls and what they returned / which bytes they changed."""
+    xo = C.use_repo()
+    n = {"quick": 4, "thorough": len(LIVE_TYPES) * 2}[tier]
+    fo = open(out, "w")
+
+    def emit(obj):
+        fo.write(json.dumps(obj) + "\n")
+        fo.flush()
+    for i in range(n):
+        rng = random.Random(f"{seed}:live:{i}")
+        w = World(rng, caps=[0, 64, 64], aligns=[1, 1, 1], dirty=False)       # buffer 0 is exactly full after every allocation
+        w.index = i
+        w.ns.prefix = f"L{i}w"
+        tx = LIVE_TYPES[(i + seed) % len(LIVE_TYPES)]
+        with C.memory_guard():
+            k1 = w.new(tx, 0, mindim=1, allow=("null", "new"))
+        if k1 is None:
+            continue
+        cls = w.ns.cls(tx)
+        ctx = w.bufs[0].context
+        import contextlib, io
+        with contextlib.redirect_stdout(io.StringIO()):
+            ctx.add_kernels(kernels=cls._gen_kernels())
+        funcs = [f for f in api_functions(cls) if f["action"] in ("get", "set", "len", "typeid")]
+        keys = [k1]
+        for phase in range(3):
+            if phase:
+                store = w.bufs[0].buffer
+                with C.memory_guard():
+                    k2 = w.new(tx if phase == 1 else X.arr(X.sc("Int64"), [3]), 0, mindim=1, allow=("null", "new"))
+                if k2 is None:
+                    break
+                if w.bufs[0].buffer is store:
+                    emit(dict(count="live_phase_without_growth"))
+                if phase == 1:
+                    keys.append(k2)
+            for key in keys:
+                buf = w.bufs[key[0]]
+                mem = bytes(buf.raw())
+                q, desc = [], []
+                for f in funcs:
+                    for path, idx in enum_calls(w, key, f, limit=6):
+                        args = {"obj": w.handles[key]["ctor"]}
+                        args.update({f"i{j}": v for j, v in enumerate(idx)})
+                        e = dict(k=f["action"], path=path)
+                        if f["action"] == "set":
+                            val = value_for(rng, f["last"])
+                            args["value"] = np.frombuffer(bytes(val), dtype=f["kernel"].args[-1].atype._dtype)[0]
+                        emit(dict(announce=dict(k=f["action"], path=path, name=f["name"], idx=idx, t=w.handles[key]["tx"], tag=f"live:phase{phase}", index=i)))
+                        r = ctx.kernels[f["name"]](**args)
+                        if f["action"] == "get":
+                            e["r"] = list(np.array(r).astype(f["kernel"].ret.atype._dtype).tobytes())
+                        elif f["action"] == "set":
+                            now = bytes(buf.raw())
+                            e["val"] = list(val)
+                            e["d"] = [[x, now[x]] for x in range(min(len(now), len(mem))) if now[x] != mem[x]]
+                            if now != mem:              # undo: the record describes every call on the same bytes
+                                buf.update_from_buffer(0, mem)
+                        else:
+                            e["r"] = int(r)
+                        q.append(e)
+                        desc.append(dict(k=f["action"], path=path, name=f["name"], idx=idx, val=e.get("val", [])))
+                emit(dict(rec=dict(t=w.handles[key]["tx"], mem=list(mem), a=key[1], q=q), key=list(key), desc=desc, tag=f"live:phase{phase}", index=i))
+    emit(dict(done=True))
+    fo.close()
+
+
 def path_class(tx, path):
     """type-shape chain along a path (stable part of failure keys)"""
     parts = []
@@ -390,6 +503,9 @@ def check(pid, argv=None):
 
 
 def _check(run, pid):
+    state = dict(decl_first=False)
+    report0 = run.report
+    run.report = lambda key, desc, obj=None: report0(key, desc, None if obj is None else dict(obj, decl_first=state["decl_first"]))
     conf = COUNTS[run.tier]
     nworlds = conf["worlds"]
     if run.replay:
@@ -400,7 +516,7 @@ def _check(run, pid):
     t0 = time.time()
     # worlds in groups: one driver build per group keeps translation units small
     group = 12
-    all_recs, keys_by_rec = [], []
+    all_recs, keys_by_rec, df_by_rec = [], [], []
     targets = {"C02": ["cpu_serial"], "C07": ["cpu_serial"], "C15": ["cpu_serial", "cpu_openmp", "opencl", "cuda"]}[pid]
     sanitize = (pid == "C07")
     stats = collections.Counter()
@@ -422,8 +538,9 @@ def _check(run, pid):
         rng = random.Random(f"{seed}:plan:{g0}")
         per_target = {}
         table = None
+        state["decl_first"] = (pid == "C15" and ((g0 // group) % 2 == 1 if not run.replay else bool(rp.get("decl_first"))))
         for tgt in targets:
-            exe, table, spec, err = build_driver(run.tmp, classes, tgt, sanitize=False, tag=f"_{g0}")
+            exe, table, spec, err = build_driver(run.tmp, classes, tgt, sanitize=False, tag=f"_{g0}", decl_first=state["decl_first"])
             if exe is None:
                 if pid == "C15" and tgt in ("opencl", "cuda", "cpu_openmp"):
                     run.report(f"compile:{tgt}:host-compiler-rejects", f"the {tgt} form does not compile with the target keywords defined away: {err[-600:]}",
@@ -502,6 +619,7 @@ def _check(run, pid):
             for r, (w, key, desc) in zip(recs, meta):
                 all_recs.append(r)
                 keys_by_rec.append((w, key, desc, tgt))
+                df_by_rec.append(state["decl_first"])
         if sanitize:
             exe, table2, spec, err = build_driver(run.tmp, classes, "cpu_serial", sanitize=True, tag=f"_san{g0}")
             if exe is None:
@@ -522,6 +640,15 @@ def _check(run, pid):
                 kind = "heap-buffer-overflow" if "heap-buffer-overflow" in err else ("misaligned" if "misaligned" in err else ("overflow" if "overflow" in err else "runtime-error"))
                 run.report(f"sanitizer:{kind}:{where}", f"sanitizer report at {last}: " + " | ".join([ln for ln in err.splitlines() if "ERROR" in ln or "runtime error" in ln][:3]),
                            dict(seed=seed, world=widx))
+    if pid in ("C02", "C07") and not run.replay:
+        t2 = time.time()
+        lrecs, linfo = live_records(run, pid)
+        all_recs += lrecs
+        keys_by_rec += linfo
+        df_by_rec += [False] * len(lrecs)
+        run.notes["live_kernel_records"] = len(lrecs)
+        run.notes["live_kernel_calls"] = sum(len(r["q"]) for r in lrecs)
+        run.notes["t_live"] = round(time.time() - t2, 1)
     run.notes["t_execute"] = round(time.time() - t0, 1)
     t1 = time.time()
     verdicts, tot = validate(all_recs)
@@ -530,7 +657,8 @@ def _check(run, pid):
     run.cov["transitions"] += tot["generated"]
     run.cov["traces_validated_against_impl"] = len(all_recs)
     kinds = collections.Counter()
-    for v, (w, key, desc, tgt), rec in zip(verdicts, keys_by_rec, all_recs):
+    for v, (w, key, desc, tgt), rec, df in zip(verdicts, keys_by_rec, all_recs, df_by_rec):
+        state["decl_first"] = df
         for d in desc:
             kinds[d["k"]] += 1
         if not v:
@@ -553,3 +681,9 @@ def _check(run, pid):
     for r, (w, key, desc, tgt) in list(zip(all_recs, keys_by_rec))[:3]:
         run.sample(dict(type=X.key(r["t"])[:300], offset=r["a"], target=tgt, calls=[dict(name=d["name"], idx=d["idx"], result=q.get("r", q.get("d"))) for d, q in zip(desc, r["q"])][:6]))
     run.cov["exhaustive"] = False
+
+
+if __name__ == "__main__":
+    import sys
+    if len(sys.argv) == 5 and sys.argv[1] == "--live":
+        _live_child(int(sys.argv[2]), sys.argv[3], sys.argv[4])
